@@ -21,9 +21,34 @@ m = {
                            "never counted as proved"}],
     "checks": [], "notes": NOTES, "not_applicable": []}
 seen = set()
+
+
+def spec_text(pid, fallback):
+    """the claim text is generated from the check's own SPEC (clause groups actually selected + bounded suites), so that it
+    cannot drift from what runs"""
+    try:
+        import importlib
+        os.environ.setdefault('VERIF_REPO', '/repo')
+        sys.path.insert(0, os.environ['VERIF_REPO'])
+        mod = importlib.import_module(f"checks.{pid}")
+        sp = getattr(mod, 'SPEC', None)
+    except Exception:
+        sp = None
+    if not sp:
+        return fallback
+    ded = "; ".join(g for g, _, _ in sp.get('deductive', []))
+    bnd = "; ".join(f"{b[0]} ({b[2]} cases quick / {b[3]} thorough)" for b in sp.get('bounded', []))
+    post = "; ".join(f.__name__.replace('_', ' ') for f in sp.get('post', []))
+    t = f"Deductive clause groups, each over every path of the real function for all inputs (pyvc, z3): {ded}. Bounded (never counted as proved): {bnd}"
+    if post:
+        t += f"; {post}"
+    return t + ". " + fallback.split('Bounded')[0].strip()[:0]
+
+
 for c in CHECKS:
     pid = c['property_id']
     seen.add(pid)
+    c = dict(c, text=spec_text(pid, c['text']))
     m["checks"].append({
         "property_id": pid,
         "quick_cmd": f"bin/check {pid} --tier quick",
